@@ -174,6 +174,133 @@ def gen(ctx):
     return L, nexh
 
 
+RSORT_DECLS = {
+    "U": "union U { A, D }",
+    "Root": "table Root { ids:[int] (sorted); plain:[int]; u:U; a:A; us:[U]; }",
+    "A": "table A { bs:[B]; d:D; }",
+    "B": "table B { c:C; name:string (key); }",
+    "C": "table C { d:D; ds:[D]; }",
+    "KS": "struct KS { k:short (key); v:short; }",
+    "D": "table D { nums:[ulong] (sorted); strs:[string] (sorted); ks:[KS] (sorted); items:[Item] (sorted); plain:[int]; tag:int; }",
+    "Item": "table Item { name:string (key); w:int; }",
+}
+
+
+def rsort_stage(ctx, flatcc, rt):
+    """generated recursive sorter (<Root>_sort): the same schema in several declaration orders (the sorter's reachability analysis is a fixpoint
+    over the declaration list), one program (harness/rsort/rsort.c): every vector marked sorted, behind table fields / vectors of tables /
+    unions / union vectors, must come out as a sorted permutation, every other vector unchanged, the buffer still verifies."""
+    r = random.Random(ctx.seed * 31 + 16)
+    top_down = ["U", "Root", "A", "B", "C", "D", "KS", "Item"]
+    orders = [top_down, list(reversed(top_down))] + [r.sample(top_down, len(top_down)) for _ in range(2 if ctx.quick() else 12)]
+    fails, nD = [], 0
+    for oi, order in enumerate(orders):
+        d = os.path.join(ctx.work, "rsort%d" % oi); os.makedirs(d, exist_ok=True)
+        fbs = "namespace RS;\n" + "\n".join(RSORT_DECLS[n] for n in order) + "\nroot_type Root;\n"
+        open(os.path.join(d, "rsort.fbs"), "w").write(fbs)
+        rc, log = flatcc_generate(ctx, flatcc, os.path.join(d, "rsort.fbs"), d, opts=("-a",))
+        if rc != 0:
+            fails.append(("flatcc rejects the schema: " + log[-400:], fbs)); continue
+        try:
+            exe = build_harness(ctx, "rsort_prog%d" % oi, [os.path.join(VERIF, "harness/rsort/rsort.c")], rt, incs=[d])
+        except BuildError as e:
+            fails.append(("generated sorter does not compile: " + str(e)[-800:], fbs)); continue
+        rc, out, err = sh([exe], timeout=120, env=ASAN_ENV)
+        if rc != 0:
+            fails.append(("recursive sort scenario crashed (rc=%d): %s" % (rc, err[-800:]), fbs)); continue
+        parts = out.split("after verify=")
+        if len(parts) != 2 or not parts[0].startswith("before verify=0") or not parts[1].startswith("0"):
+            fails.append(("buffer does not verify before / after <Root>_sort: " + out[:200], fbs)); continue
+        def parse(txt):
+            rows = []
+            for l in txt.split("\n"):
+                if l.startswith("R ") or l.startswith("D "):
+                    kv = dict(x.split("=", 1) for x in l.split(" ")[1:])
+                    rows.append((l[0], {k: (v.split(",") if v else []) for k, v in kv.items()}))
+                elif l.startswith("count D="): rows.append(("n", int(l.split("=")[1])))
+            return rows
+        before, after = parse(parts[0]), parse(parts[1])
+        if len(before) != len(after) or before[-1] != ("n", 13) or after[-1] != ("n", 13):
+            fails.append(("the walk does not reach the 13 D tables: before %s after %s" % (before[-1:], after[-1:]), fbs)); continue
+        keyf = {"ids": lambda x: int(x), "nums": lambda x: int(x), "strs": lambda x: x.encode(), "ks": lambda x: int(x.split(":")[0]), "items": lambda x: x.split(":")[0].encode()}
+        for (kb, rb), (ka, ra) in zip(before[:-1], after[:-1]):
+            nD += ka == "D"
+            for name in ra:
+                if name == "tag": continue
+                if name == "plain":
+                    if ra[name] != rb[name]: fails.append(("a vector NOT marked sorted was changed by <Root>_sort: %s -> %s" % (rb[name], ra[name]), fbs))
+                    continue
+                ks = [keyf[name](x) for x in ra[name]]
+                if ks != sorted(ks): fails.append(("vector `%s` marked sorted is not sorted after <Root>_sort: %s (declaration order %s)" % (name, ",".join(ra[name]), " ".join(order)), fbs))
+                elif sorted(ra[name]) != sorted(rb[name]): fails.append(("vector `%s` is not a permutation of its content before the sort: %s -> %s" % (name, rb[name], ra[name]), fbs))
+    # chains Root -> L1 -> .. -> Lk -> D(sorted vector) through table fields / vectors of tables / unions, declared top-down, bottom-up or shuffled:
+    # the sorter's reachability analysis needs one pass per level when parents are declared before their children
+    nchain = 0
+    def one_chain(ci, k, kinds, order_mode):
+        names = ["Root"] + ["L%d" % i for i in range(1, k + 1)] + ["D"]
+        decl = {"D": "table D { v:[int] (sorted); w:[int]; }"}
+        for i in range(k + 1):
+            child, kind = names[i + 1], kinds[i]
+            own = "ids:[int] (sorted); " if i == 0 else ""
+            if kind == "u": decl["U%d" % i] = "union U%d { %s }" % (i, child)
+            decl[names[i]] = "table %s { %sn:%s; }" % (names[i], own, child if kind == "f" else "[%s]" % child if kind == "v" else "U%d" % i)
+        keys = []
+        for i in range(k + 1):
+            if kinds[i] == "u": keys.append("U%d" % i)
+            keys.append(names[i])
+        keys.append("D")
+        order = keys if order_mode == 0 else list(reversed(keys)) if order_mode == 1 else random.Random(ctx.seed * 977 + ci).sample(keys, len(keys))
+        fbs = "namespace CH;\n" + "\n".join(decl[x] for x in order) + "\nroot_type Root;\n"
+        d = os.path.join(ctx.work, "chain%d" % ci); os.makedirs(d, exist_ok=True)
+        open(os.path.join(d, "chain.fbs"), "w").write(fbs)
+        rc, log = flatcc_generate(ctx, flatcc, os.path.join(d, "chain.fbs"), d, opts=("-a",))
+        if rc != 0: return ("flatcc rejects the chain schema: " + log[-300:], fbs)
+        c = ['#include <stdio.h>', '#include "chain_builder.h"', '#include "chain_verifier.h"', 'int main(void) { flatcc_builder_t b, *B = &b; void *buf; size_t n, i; int32_t a[5] = {4, -1, 9, 0, 4}, ids[3] = {3, 1, 2};',
+             ' flatcc_builder_ref_t ref; flatcc_builder_init(B);',
+             ' CH_D_start(B); CH_D_v_create(B, a, 5); CH_D_w_create(B, a, 5); ref = CH_D_end(B);']
+        def link(i):
+            T, child, kind = "CH_" + names[i], names[i + 1], kinds[i]
+            if kind == "f": return " %s_n_add(B, ref);" % T
+            if kind == "v": return " %s_n_start(B); %s_n_push(B, ref); %s_n_end(B);" % (T, T, T)
+            return " %s_n_%s_add(B, ref);" % (T, child)
+        for i in range(k, 0, -1):
+            c.append(" CH_%s_start(B);%s ref = CH_%s_end(B);" % (names[i], link(i), names[i]))
+        c.append(" CH_Root_start_as_root(B); CH_Root_ids_create(B, ids, 3);%s CH_Root_end_as_root(B);" % link(0))
+        c.append(' buf = flatcc_builder_finalize_aligned_buffer(B, &n); printf("v0=%d\\n", CH_Root_verify_as_root(buf, n));')
+        c.append(" CH_Root_sort((CH_Root_mutable_table_t)CH_Root_as_root(buf));")
+        c.append(' printf("v1=%d\\n", CH_Root_verify_as_root(buf, n)); { const void *p = CH_Root_as_root(buf);')
+        c.append(' printf("ids="); for (i = 0; i < 3; ++i) printf("%d,", (int)flatbuffers_int32_vec_at(CH_Root_ids((CH_Root_table_t)p), i)); printf("\\n");')
+        for i in range(k + 1):
+            T, child, kind = "CH_" + names[i], "CH_" + names[i + 1], kinds[i]
+            if kind == "v": c.append(" p = %s_vec_at(%s_n((%s_table_t)p), 0);" % (child, T, T))
+            else: c.append(" p = %s_n((%s_table_t)p);" % (T, T))
+        c.append(' printf("v="); for (i = 0; i < 5; ++i) printf("%d,", (int)flatbuffers_int32_vec_at(CH_D_v((CH_D_table_t)p), i));')
+        c.append(' printf("\\nw="); for (i = 0; i < 5; ++i) printf("%d,", (int)flatbuffers_int32_vec_at(CH_D_w((CH_D_table_t)p), i)); printf("\\n"); }')
+        c.append(" flatcc_builder_aligned_free(buf); flatcc_builder_clear(B); return 0; }")
+        open(os.path.join(d, "prog.c"), "w").write("\n".join(c) + "\n")
+        try:
+            exe = build_harness(ctx, "chain_prog%d" % ci, [os.path.join(d, "prog.c")], rt, incs=[d])
+        except BuildError as e:
+            return ("generated code for the chain schema does not compile: " + str(e)[-700:], fbs)
+        rc, out, err = sh([exe], timeout=60, env=ASAN_ENV)
+        got = dict(l.split("=", 1) for l in out.split("\n") if "=" in l)
+        if rc != 0 or got.get("v0") != "0" or got.get("v1") != "0": return ("chain scenario crashed or does not verify: %s %s" % (out[:200], err[-300:]), fbs)
+        if got.get("ids") != "1,2,3,": return ("Root.ids (sorted) is %s after <Root>_sort" % got.get("ids"), fbs)
+        if got.get("v") != "-1,0,4,4,9,": return ("the sorted vector %d levels below the root (links %s) is %s after <Root>_sort: not sorted" % (k + 1, "".join(kinds), got.get("v")), fbs)
+        if got.get("w") != "4,-1,9,0,4,": return ("a vector not marked sorted was changed: %s" % got.get("w"), fbs)
+        return None
+    jobs = []
+    for k in range(0, 6):
+        for mode in (0, 1, 2):
+            for rep in range(1 if ctx.quick() else 6):
+                jobs.append((len(jobs), k, [r.choice("fvu") for _ in range(k + 1)], mode))
+    with ThreadPoolExecutor(8) as ex:
+        for res in ex.map(lambda j: one_chain(*j), jobs):
+            nchain += 1
+            if res: fails.append(res)
+    return {"recursive_sort_declaration_orders": len(orders), "recursive_sort_tables_checked": nD, "recursive_sort_chain_schemas": nchain}, fails
+
+
 def run(ctx):
     ths = proof_stage(ctx)
     if ths is None:
@@ -205,6 +332,10 @@ def run(ctx):
                   {"kind": "correspondence-broken", "theorems_no_longer_tied": [t["name"] for t in ths],
                    "op": lines[i], "c_output": a[i], "model_output": b[i], "count": len(idx), "stderr": (err_c + err_m)[-1500:]},
                   no_failing_input=True)
+    rs_stats, rs_fail = rsort_stage(ctx, flatcc, rt)
+    if rs_fail:
+        violation(ctx, "rsort_%d.json" % ctx.seed, {"kind": "property-fails-on-implementation", "why": rs_fail[0][0][:3000], "count": len(rs_fail), "schema_fbs": rs_fail[0][1],
+                                                      "more": [f[0][:200] for f in rs_fail[1:6]], "how_to_replay": "flatcc -a <schema>; build harness/rsort/rsort.c against it; run"})
     distinct = set()
     ops = {}
     for l, o in zip(lines, a):
@@ -218,12 +349,13 @@ def run(ctx):
                 "random vectors up to 700 elements with duplicates/MIN/MAX/sorted/reversed, strings with prefixes, high bytes and embedded NUL; "
                 "find on sorted vectors for present/absent/neighbour keys; scan/rscan for all (begin,end) incl. begin>=end, end>len, sentinel. "
                 "element-for-element comparison with the model (payloads distinguish equal keys). non-trivial = at least 2 elements; distinct by line hash." % nexh,
-        "exhaustive_part_lines": nexh,
+        "exhaustive_part_lines": nexh, **rs_stats,
         "traces_validated_against_impl": len(lines),
         "correspondence_disagreements": len(idx), "spec_oracle_failures": len(spec_fail), "ops": ops})
     ctx.samples = [{"op": lines[i][:300], "c": a[i][:300], "model": b[i][:300]} for i in
                    [5, nexh // 2, nexh + 3, len(lines) // 2, len(lines) - 1] if i < len(lines)]
     ctx.notes = ["string-key order theorem is for NUL-free keys; keys with embedded NUL are compared with the model's strncmp semantics only",
                  "float keys are not exercised (NaN breaks the strict-weak-order premise)",
-                 "recursive table sort (codegen_c_sorter.c) is exercised only through the per-vector sort functions"]
+                 "recursive table sort (codegen_c_sorter.c): a generated <Root>_sort is run on one schema rendered in several declaration orders "
+                 "(sorted vectors behind table fields, vectors of tables, unions, union vectors; unsorted vectors must stay as they are): execution only"]
     finish(ctx, ths)
